@@ -1,4 +1,5 @@
 """Kernel tables: which (operation, type, arch) wrappers each property instantiates."""
+from . import gen
 from .gen import Kernel, ITYPES, FTYPES, ATYPES, TYPES, ALL_ARCHS, CORE_ARCHS, lanes, is_avx512, B, BB
 
 
@@ -122,4 +123,129 @@ def c09(archs, types=ATYPES):
             if TYPES[ty][3] == 'fp':
                 pre = '%s rows[%d]; for (int i = 0; i < %d; ++i) rows[i] = %s::load_unaligned(a + i * %d);' % (b, n, n, b, n)
                 ks.append(mk('C09', 'haddp', 'q', 'v', 'xsimd::haddp(rows)', ty, arch, pre=pre))
+    return ks
+
+
+# ---------------------------------------------------------------- C05 data movement
+import random as _random
+
+UT = {8: 'u8', 16: 'u16', 32: 'u32', 64: 'u64'}
+
+
+def swizzle_masks(n, tier, rng, two_input=False):
+    """bounded family of compile-time index patterns for n lanes (indices < n, or < 2n for two-input shuffles) -> {name: tuple}"""
+    m = 2 * n if two_input else n
+    fam = {}
+    if n == 2 and not two_input:
+        for a in range(2):
+            for b in range(2): fam['all%d%d' % (a, b)] = (a, b)
+        return fam
+    if n == 2 and two_input:
+        for a in range(4):
+            for b in range(4): fam['all%d%d' % (a, b)] = (a, b)
+        return fam
+    def add(name, t):
+        t = tuple(int(x) % m for x in t)
+        if t not in fam.values(): fam[name] = t
+    add('id', range(n)); add('rev', reversed(range(n)))
+    bc = range(n) if (n <= 8 or tier == 'thorough') else [0, 1, n // 2 - 1, n // 2, n - 1]
+    for b in bc: add('bc%d' % b, [b] * n)
+    rt = range(1, n) if (n <= 8 or tier == 'thorough') else [1, 2, n // 4, n // 2 - 1, n // 2, n // 2 + 1, n - 1]
+    for r in rt: add('rot%d' % r, [(i + r) % n for i in range(n)])
+    add('swapadj', [i ^ 1 for i in range(n)])
+    add('swaphalf', [(i + n // 2) % n for i in range(n)])
+    add('duplo', [i % (n // 2) for i in range(n)]); add('duphi', [n // 2 + i % (n // 2) for i in range(n)])
+    add('zip', [(i // 2) + (n // 2) * (i % 2) for i in range(n)])
+    add('unzip', [2 * i if i < n // 2 else 2 * (i - n // 2) + 1 for i in range(n)])
+    add('evens', [2 * (i % (n // 2)) for i in range(n)]); add('odds', [2 * (i % (n // 2)) + 1 for i in range(n)])
+    if n >= 4:
+        q = max(n // 4, 1)
+        add('revq', [(i // q) * q + (q - 1 - i % q) for i in range(n)])             # reverse inside quarters (in-128-bit-lane for 512)
+        add('xlane', [(i + q) % n if (i // q) % 2 == 0 else i for i in range(n)])    # some lanes cross, some stay
+        add('lastfirst', [n - 1] + list(range(n - 1)))
+        add('halfmix', [i if i % 2 == 0 else (i + n // 2) % n for i in range(n)])    # mixes indices from both halves inside each output half
+    if two_input:
+        add('snd', range(n, 2 * n)); add('zip_lo', [(i // 2) + n * (i % 2) for i in range(n)])
+        add('zip_hi', [n // 2 + (i // 2) + n * (i % 2) for i in range(n)])
+        add('blend', [i + n * (i % 2) for i in range(n)]); add('blend2', [i + n * ((i // 2) % 2) for i in range(n)])
+        add('lo_x_hi_y', [i if i < n // 2 else n + i for i in range(n)]); add('lo_y_hi_x', [n + i if i < n // 2 else i for i in range(n)])
+        add('xrev_y', [n - 1 - i if i % 2 else n + i for i in range(n)])
+    if n == 4 and not two_input and tier == 'thorough':
+        for v in range(256): add('all%03d' % v, [(v >> (2 * i)) & 3 for i in range(4)])
+    R = 8 if tier == 'quick' else 48
+    for r in range(R): add('rnd%d' % r, [rng.randrange(m) for _ in range(n)])
+    return fam
+
+
+def c05(archs, tier, seed, types=ATYPES):
+    ks = []
+    for arch in archs:
+        regbytes = (int(arch[3:]) if arch.startswith('emu') else gen.ARCH[arch][2]) // 8
+        for ty in types:
+            n = lanes(ty, arch); w = TYPES[ty][1]; ut = UT[w]; b = B(ty, arch); cut = TYPES[ut][0]; ca = gen.cpp_arch(arch)
+            rng = _random.Random('%s/%s/%d' % (ty, n, seed))     # same family for every arch with that geometry => bodies de-duplicate
+            # run-time index swizzle
+            k = Kernel('C05', 'swizzle_dyn', ty, arch, [('v', ty), ('v', ut)], ('v', ty), 'xsimd::swizzle(a, b)'); ks.append(k)
+            for name, msk in swizzle_masks(n, tier, rng).items():
+                ks.append(Kernel('C05', 'swizzle', ty, arch, [('v', ty)], ('v', ty), 'xsimd::swizzle(a, xsimd::batch_constant<%s, %s, %s>())' % (cut, ca, ', '.join(map(str, msk))),
+                                 variant=name, meta={'mask': msk}))
+            for name, msk in swizzle_masks(n, tier, rng, two_input=True).items():
+                ks.append(Kernel('C05', 'shuffle', ty, arch, [('v', ty), ('v', ty)], ('v', ty), 'xsimd::shuffle(a, b, xsimd::batch_constant<%s, %s, %s>())' % (cut, ca, ', '.join(map(str, msk))),
+                                 variant=name, meta={'mask': msk}))
+            ks.append(mk('C05', 'zip_lo', 'vv', 'v', 'xsimd::zip_lo(a, b)', ty, arch)); ks.append(mk('C05', 'zip_hi', 'vv', 'v', 'xsimd::zip_hi(a, b)', ty, arch))
+            ks.append(mk('C05', 'extract_pair', 'vvz', 'v', 'xsimd::extract_pair(a, b, c)', ty, arch))
+            if n <= 16 or (tier == 'thorough' and n <= 32):
+                ks.append(mk('C05', 'compress', 'vm', 'v', 'xsimd::compress(a, b)', ty, arch)); ks.append(mk('C05', 'expand', 'vm', 'v', 'xsimd::expand(a, b)', ty, arch))
+            else:
+                # wide masks: the mask bits are symbolic inside a 16-lane window, concrete (all 0 / all 1) outside it
+                for lo in range(0, n, 16):
+                    for bg in (0, 1):
+                        v = 'w%db%d' % (lo, bg)
+                        ks.append(mk('C05', 'compress', 'vm', 'v', 'xsimd::compress(a, b)', ty, arch, variant=v, meta={'window': (lo, lo + 16), 'bg': bg}))
+                        ks.append(mk('C05', 'expand', 'vm', 'v', 'xsimd::expand(a, b)', ty, arch, variant=v, meta={'window': (lo, lo + 16), 'bg': bg}))
+            Ns = range(n) if (n <= 8 or tier == 'thorough') else sorted({0, 1, 2, 3, n // 4, n // 2 - 1, n // 2, n // 2 + 1, n - 2, n - 1})
+            for N in Ns:
+                ks.append(mk('C05', 'rotate_left', 'v', 'v', 'xsimd::rotate_left<%d>(a)' % N, ty, arch, variant=str(N), meta={'N': N}))
+                ks.append(mk('C05', 'rotate_right', 'v', 'v', 'xsimd::rotate_right<%d>(a)' % N, ty, arch, variant=str(N), meta={'N': N}))
+            Is = range(n) if (n <= 8 or tier == 'thorough') else sorted({0, 1, n // 4, n // 2 - 1, n // 2, n - 2, n - 1})
+            for I in Is:
+                ks.append(mk('C05', 'insert', 'vT', 'v', 'xsimd::insert(a, b, xsimd::index<%d>())' % I, ty, arch, variant=str(I), meta={'I': I}))
+            if TYPES[ty][3] == 'int':
+                Bs = range(regbytes + 1) if tier == 'thorough' else sorted({0, 1, 2, 3, 4, 5, 7, 8, 9, 12, 15, 16, 17, 20, 24, 31, 32, 33, 40, 47, 48, 49, 63, 64} & set(range(regbytes + 1)))
+                for N in Bs:
+                    ks.append(mk('C05', 'slide_left', 'v', 'v', 'xsimd::slide_left<%d>(a)' % N, ty, arch, variant=str(N), meta={'N': N}))
+                    ks.append(mk('C05', 'slide_right', 'v', 'v', 'xsimd::slide_right<%d>(a)' % N, ty, arch, variant=str(N), meta={'N': N}))
+            pre = '%s m[%d]; for (int i = 0; i < %d; ++i) m[i] = %s::load_unaligned(a + i * %d); xsimd::transpose(m, m + %d); for (int i = 0; i < %d; ++i) m[i].store_unaligned(b + i * %d);' % (b, n, n, b, n, n, n, n)
+            ks.append(mk('C05', 'transpose', 'qp', 'void', '', ty, arch, pre=pre))
+    return ks
+
+
+# ---------------------------------------------------------------- C04 loads / stores / gather / scatter / broadcast / get
+IT = {8: 'i8', 16: 'i16', 32: 'i32', 64: 'i64'}
+
+
+def c04(archs, types=ATYPES):
+    ks = []
+    for arch in archs:
+        ca = gen.cpp_arch(arch)
+        for ty in types:
+            n = lanes(ty, arch); w = TYPES[ty][1]; b = B(ty, arch); ct = TYPES[ty][0]; it = IT[w]
+            sub = dict(B=b, T=ct, A=ca, N=n)
+            for nm, expr in [('load_aligned', '%(B)s::load_aligned(a)'), ('load_unaligned', '%(B)s::load_unaligned(a)'),
+                             ('load_tag_al', 'xsimd::load<%(A)s>(a, xsimd::aligned_mode())'), ('load_tag_un', 'xsimd::load<%(A)s>(a, xsimd::unaligned_mode())'),
+                             ('load_as_al', 'xsimd::load_as<%(T)s, %(A)s>(a, xsimd::aligned_mode())'), ('load_as_un', 'xsimd::load_as<%(T)s, %(A)s>(a, xsimd::unaligned_mode())')]:
+                ks.append(mk('C04', nm, 'q', 'v', expr % sub, ty, arch, meta={'aligned': nm.endswith(('aligned', '_al'))}))
+            for nm, expr in [('store_aligned', 'b.store_aligned(a);'), ('store_unaligned', 'b.store_unaligned(a);'),
+                             ('store_tag_al', 'xsimd::store(a, b, xsimd::aligned_mode());'), ('store_tag_un', 'xsimd::store(a, b, xsimd::unaligned_mode());'),
+                             ('store_as_al', 'xsimd::store_as(a, b, xsimd::aligned_mode());'), ('store_as_un', 'xsimd::store_as(a, b, xsimd::unaligned_mode());')]:
+                k = Kernel('C04', nm, ty, arch, [('p', ty), ('v', ty)], ('void', None), expr, meta={'aligned': nm.endswith(('aligned', '_al'))}); ks.append(k)
+            # bool arrays: footprint of batch_bool load/store (values are C03)
+            ks.append(Kernel('C04', 'bool_load', ty, arch, [('x', 'bool const* a')], ('m', ty), '%s::load_unaligned(a)' % BB(ty, arch)))
+            ks.append(Kernel('C04', 'bool_store', ty, arch, [('x', 'bool* a'), ('m', ty)], ('void', None), 'b.store_unaligned(a);'))
+            # gather / scatter with an index batch of same-width signed integers
+            ks.append(Kernel('C04', 'gather', ty, arch, [('q', ty), ('v', it)], ('v', ty), '%s::gather(a, b)' % b))
+            ks.append(Kernel('C04', 'scatter', ty, arch, [('p', ty), ('v', ty), ('v', it)], ('void', None), 'b.scatter(a, c);'))
+            ks.append(mk('C04', 'broadcast', 'T', 'v', '%s(a)' % b, ty, arch)); ks.append(mk('C04', 'broadcast2', 'T', 'v', '%s::broadcast(a)' % b, ty, arch))
+            ks.append(mk('C04', 'ctor_list', 'q', 'v', '%s(%s)' % (b, ', '.join('a[%d]' % i for i in range(n))), ty, arch))
+            ks.append(mk('C04', 'get', 'vz', 'T', 'a.get(b)', ty, arch))
     return ks
